@@ -31,7 +31,7 @@ func checkC07(c Case) *Failure {
 }
 
 func runC07(r *Run) {
-	r.Rule("every chain of <= L steps over the accessor/filter alphabet (.a .b .* [*] .** .**{1} [i] [i to j] [i,j] [i,j,k] with literal and last-relative bounds, filters over them; and chains of <= 2 over subscripts with fractional / negative bounds -0.5 -0.9 0.5 -1 -1.5 1.5 0.999 last-0.5 last-1.5 0.5-1 as single subscript, range start, range end and list member) x every JSON document with <= K nodes over scalars {null,1}, keys {a,b} x {lax,strict} x {float64,json.Number}; oracle: reference interpreter (lax: no error and same items; strict: suppressible structural error exactly when the reference's complete evaluation meets a mismatch, else same items); non-trivial = reference yields items or an error")
+	r.Rule("every chain of <= L steps over the accessor/filter alphabet (.a .b .* [*] .** .**{1} [i] [i to j] [i,j] [i,j,k] with literal and last-relative bounds, filters over them; and chains of <= 2 over subscripts with fractional / negative bounds -0.5 -0.9 0.5 -1 -1.5 1.5 0.999 last-0.5 last-1.5 0.5-1 as single subscript, range start, range end and list member; and conditions (==, !=, exists, !) over operands @[r].a, @.a[r].a, @[r] ? (exists(@.a)).a, @[r][*], @[r].* for 6 subscript lists/ranges r under 4 prefixes x 144 documents placing 6 element kinds at every position) x every JSON document with <= K nodes over scalars {null,1}, keys {a,b} x {lax,strict} x {float64,json.Number}; oracle: reference interpreter (lax: no error and same items; strict: suppressible structural error exactly when the reference's complete evaluation meets a mismatch, else same items); non-trivial = reference yields items or an error")
 	alpha := c07Alphabet()
 	L, K := 3, 4
 	if r.Thorough() {
@@ -54,6 +54,31 @@ func runC07(r *Run) {
 	fpaths := bothModes(chainsOver(eRoot(), fr, 2, false))
 	r.Bound("fractional_bound_paths", len(fpaths))
 	refSweep(r, "fractional-and-negative-bounds", fpaths, docs, cfgsNum())
+	// conditions whose operand selects several elements by subscript and then applies a step that some of
+	// them do not support, the offending element at every position
+	var ops []*Expr
+	for _, ix := range []*Expr{sIndex(sub1(eInt(0)), sub1(eInt(1))), sIndex(sub1(eInt(1)), sub1(eInt(0))), sIndex(subR(eInt(0), eInt(1))), sIndex(subR(eInt(0), eLast())),
+		sIndex(subR(lastMinus(1), eLast())), sIndex(sub1(eInt(0)), subR(eInt(1), eLast()))} {
+		ops = append(ops, eCur(ix, sKey("a")), eCur(sKey("a"), ix, sKey("a")), eCur(ix, sFilter(eExists(eCur(sKey("a")))), sKey("a")), eCur(ix, sAnyArray()), eCur(ix, sAnyKey()))
+	}
+	var ocs []*Expr
+	for _, o := range ops {
+		ocs = append(ocs, eCmp("==", o, eInt(1)), eCmp("==", eInt(1), o), eExists(o), eCmp("!=", o, eNull()), eNot(eCmp("==", o, eInt(1))))
+	}
+	var opaths []*Expr
+	for _, c := range ocs {
+		opaths = append(opaths, eRoot(sFilter(c)), eRoot(sAnyArray(), sFilter(c)), eRoot(sKey("a"), sFilter(c)), eRoot(sAny(0, -1), sFilter(c)))
+	}
+	var ovals []any
+	elems := []any{map[string]any{"a": float64(1)}, map[string]any{}, float64(1), map[string]any{"a": nil}, []any{map[string]any{"a": float64(1)}}, map[string]any{"b": float64(1)}}
+	for _, a := range elems {
+		for _, b := range elems {
+			ovals = append(ovals, []any{[]any{a, b}}, map[string]any{"a": []any{a, b}}, []any{[]any{a, b, a}}, map[string]any{"a": []any{[]any{b, a}}})
+		}
+	}
+	r.Bound("subscripted_operand_paths", 2*len(opaths))
+	r.Bound("subscripted_operand_documents", len(ovals))
+	refSweep(r, "subscripted-operands-in-conditions", bothModes(opaths), makeDocs(ovals), cfgsNum())
 	if r.Thorough() {
 		// chains of four steps on the smaller document universe
 		docs3 := makeDocs(Docs(4, []any{nil, float64(1)}, stdKeys))
